@@ -36,7 +36,8 @@ package threshold
 //@   props C13 C10
 //@   requires len(r) >= 1
 //@   modifies nothing
-//@   ensures len(result) == len(r)-1 && forall i int :: 0 <= i && i < len(result) ==> result[i] == r[1+i]
+//@   ensures [alias] same(result, r[1:])
+//@   ensures [bytes] len(result) == len(r)-1 && forall i int :: 0 <= i && i < len(result) ==> result[i] == r[1+i]
 //@
 //@ lemma ackRoundTrip(d string, s uint16, rd uint8)
 //@   props C13
@@ -66,3 +67,48 @@ package threshold
 //@ func (*Scheme).handleMPC
 //@   props C10
 //@   requires msg != nil
+
+// ---- reliable broadcast glue (C02, C03) --------------------------------------------------------------------------
+
+//@ type rbcFilter
+//@   invariant [config] this.h != nil && this.warn != nil
+//@
+//@ type threadSafeRBC
+//@   invariant [config] this.h != nil
+//@
+//@ type receiver
+//@   invariant [config] this.Receiver != nil
+//@
+//@ type threadSafeSync
+//@   invariant [config] this.Synchronizer != nil
+//@
+//@ type embeddedBoxWithScheme
+//@   invariant [config] this.Box != nil && this.Scheme != nil
+
+//@ func (*rbcFilter).Receive
+//@   props C02 C03 C10 C12
+//@   on-call f.h(fm, ff):
+//@     assert [participants-only] from in f.allowedList
+//@     assert [unchanged]         fm == m && ff == from
+//@
+//@ func (*threadSafeRBC).Receive
+//@   props C02 C10
+//@   on-call r.h(fm, ff):
+//@     assert [one-at-a-time] held(r.lock)
+//@     assert [unchanged]     fm == m && ff == from
+//@
+//@ func (*Scheme).handleRBC
+//@   props C02 C03 C10
+//@   requires msg != nil && classifier != nil && handleRBC != nil && len(rbcEncoding) >= 1
+//@   on-call handleRBC(hm, hf):
+//@     assert [source]  hf == msg.Source && typeIs(hm, "*rbcMsg") && dyn(hm, "*rbcMsg").sender == msg.Source
+//@     assert [payload] same(dyn(hm, "*rbcMsg").payload, rbcEncoding[1:])
+//@     assert [digest]  string(dyn(hm, "*rbcMsg").digest) == sha256(rbcEncoding[1:])
+//@
+//@ func (*Scheme).handleAck
+//@   props C02 C03 C10
+//@   requires msg != nil && handleRBC != nil
+//@   on-call handleRBC(hm, hf):
+//@     assert [source]  hf == msg.Source && typeIs(hm, "*rbcMsg")
+//@     assert [triple]  dyn(hm, "*rbcMsg").sender == sender && dyn(hm, "*rbcMsg").round == round && dyn(hm, "*rbcMsg").digest == digest
+//@     assert [is-ack]  len(dyn(hm, "*rbcMsg").payload) == 0
